@@ -534,6 +534,27 @@ fn obs_lit_node(node: &SyntaxNode, out: &mut Vec<String>) {
     }
 }
 
+/// The tolerant form used next to known finding F4 (post-processing strips White_Space before a line feed inside
+/// a literal): blanks are dropped only where a line feed follows them inside the literal. The last line of an
+/// inline raw element and of every other literal is followed by the closing delimiter or nothing, so it is compared
+/// exactly; every content line of a raw block is followed by a line feed.
+pub fn tolerate_f4(lit: &str) -> String {
+    let block = lit.starts_with("Raw:block=true");
+    let mut out = String::new();
+    let parts: Vec<&str> = lit.split('\n').collect();
+    for (i, l) in parts.iter().enumerate() {
+        if i > 0 {
+            out.push('\n');
+        }
+        if i + 1 < parts.len() || block {
+            out.push_str(l.trim_end());
+        } else {
+            out.push_str(l);
+        }
+    }
+    out
+}
+
 pub fn obs_literals(root: &SyntaxNode) -> Vec<String> {
     let mut v = Vec::new();
     obs_lit_node(root, &mut v);
